@@ -33,7 +33,7 @@ def h5_case(draw):
         n, p1, p2 = [], [], []
         for _ in range(nd):
             c = draw(st.integers(1, 3))
-            k = draw(st.integers(1, 4))
+            k = draw(gen.nvdim_strategy())
             off = draw(st.integers(-6, 6))
             mult = draw(st.sampled_from([2, 4])) if typing == "int-fractional-subs" else 1
             n.append(k * mult)
@@ -46,7 +46,7 @@ def h5_case(draw):
     single = [d for d in dims if len(d) == 1 and d.islower()]
     bck = draw(st.integers(0, 4))
     bc = "" if bck == 0 else "neumann" if bck == 1 else "dirichlet" if bck == 2 else "".join(d for d in single if draw(st.booleans()))
-    k = draw(st.integers(1, 4))
+    k = draw(gen.nvdim_strategy())
     labels = draw(st.sampled_from(["default", "custom", "absent"]))
     return {"g": g, "typing": typing, "subs": draw(gen.index_boxes(g["n"], 3)), "sub_typing": draw(st.sampled_from(["float", "int", "natural"])),
             "bc": bc, "k": k, "labels": labels, "vdims": draw(gen.vdims_strategy(k, default_ok=False)) if labels == "custom" else None,
